@@ -67,15 +67,17 @@ def absorb(c, res, prop, extra_props=()):
     proto.absorb_filtered(c, res, prop, extra_props)
 
 
-def run_suite(c, prop, extra_props=(), with_window=True, window_inv=None, exhaustive=True):
+def run_suite(c, prop, extra_props=(), with_window=True, window_inv=None, exhaustive=True, full_thorough=False):
     """Exhaustive TLC on the quick/thorough loop configurations (window excluded), simulation behaviours
     replayed through the real loop, and - when the named deviation AppCommitInEmptyTxnWindow is enabled -
     replay of TLC's counterexample to confirm the known finding on the real code."""
     thorough = c.tier == 'thorough'
     for tag, native in (('native', True), ('shadow', False)):
-        cfg = 'LSLoop_%s.cfg' % tag if thorough else 'LSLoop_%s_q.cfg' % tag
+        # the full configurations (1e8 states) are checked exhaustively once, under C03; the other properties of the
+        # loop suite use the smaller configuration in both tiers (every run checks every invariant anyway)
+        cfg = 'LSLoop_%s.cfg' % tag if (thorough and full_thorough) else 'LSLoop_%s_q.cfg' % tag
         if exhaustive:
-            r = vlib.tlc_must_pass('LSLoop', cfg, workers=16 if thorough else 8, timeout=3000)
+            r = vlib.tlc_must_pass('LSLoop', cfg, workers=16 if thorough else 8, timeout=10800 if thorough else 3000)
             c.add_tlc(cfg, r)
         behs = simulate(c, 'LSLoop_%s.cfg' % tag, 6000 if thorough else 600, 45)
         res = replay(c, behs, native)
@@ -114,7 +116,7 @@ def run_extra(c, prop, kind, extra_props=(), exhaustive=True):
     for tag, native in (('native', True), ('shadow', False)):
         cfg = 'LSLoop_%s_%s%s.cfg' % (tag, kind, '' if thorough else '_q')
         if exhaustive:
-            r = vlib.tlc_must_pass('LSLoop', cfg, workers=16 if thorough else 8, timeout=3000)
+            r = vlib.tlc_must_pass('LSLoop', cfg, workers=16 if thorough else 8, timeout=10800 if thorough else 3000)
             c.add_tlc(cfg, r)
         behs = simulate(c, 'LSLoop_%s_%s.cfg' % (tag, kind), 3000 if thorough else 400, 45)
         if kind == 'once':
